@@ -24,7 +24,30 @@ def zI(x):
     return z3.IntVal(int(x))
 
 
+REAL_MODE = False  # False: every number (incl. times) is an Int term -- pure LIA, which z3 decides orders of
+                   # magnitude faster than the mixed Int/Real encoding (measured: 0.05 s vs > 60 s on one verdict query)
+
+
+class NonInteger(Exception):
+    pass
+
+
 def zR(x):
+    """lift into the numeric sort of "real" quantities: Int in integer-time mode, Real in real mode"""
+    if not REAL_MODE:
+        if isinstance(x, ExprRef):
+            if x.sort().kind() != z3.Z3_INT_SORT:
+                raise NonInteger('Real-sorted term in integer-time mode: %s' % x)
+            return x
+        if isinstance(x, Fraction):
+            if x.denominator != 1:
+                raise NonInteger('non-integer constant %s in integer-time mode' % x)
+            return z3.IntVal(x.numerator)
+        if isinstance(x, float):
+            if x != int(x):
+                raise NonInteger('non-integer constant %s in integer-time mode' % x)
+            return z3.IntVal(int(x))
+        return z3.IntVal(int(x))
     if isinstance(x, ExprRef):
         if x.sort().kind() == z3.Z3_INT_SORT:
             return z3.ToReal(x)
@@ -33,6 +56,8 @@ def zR(x):
         if x.denominator == 1:
             return z3.RealVal(x.numerator)
         return z3.RealVal(str(x))
+    if isinstance(x, float):
+        return z3.RealVal(str(Fraction(x)))
     return z3.RealVal(int(x))
 
 
@@ -255,6 +280,10 @@ def SubR(a, b):
 def MulR(a, b):
     if _num_py(a) and _num_py(b):
         return a * b
+    if _num_py(a):
+        return a * zR(b)
+    if _num_py(b):
+        return zR(a) * b
     return zR(a) * zR(b)
 
 
